@@ -14,7 +14,7 @@ RULE = ("definitions: systematic kind x {no attr, to_string, every ORDER of 1-3 
         "the deprecated ToString + AsStaticStr + VariantNames. For every enabled non-default non-transparent variant and two "
         "payloads: Display, AsRef, From<E>, From<&E>, into_str, ToString/as_static must each print the model's canonical name; "
         "VARIANTS is compared position-wise (disabled variants included). non-trivial = distinct (definition, value, derive)")
-ASSUMPTIONS = ["serialize literals of one variant have pairwise distinct byte lengths and the same order by chars as by bytes (the "
+ASSUMPTIONS = ["names may contain ESCAPED braces ({{ }}), which are not placeholders", "serialize literals of one variant have pairwise distinct byte lengths and the same order by chars as by bytes (the "
                "property does not say which length is meant otherwise)", "no {placeholders} (C17)"]
 
 LITS = ["a", "bcd", "éfg", "lo-ng", "Mixed Case", "SEVEN77", "x", "yy"]   # distinct byte lengths: 1,3,4,5,10,7,1,2
@@ -46,8 +46,10 @@ def systematic(rng, thorough):
                     v.fields = [Field("u8"), Field("String")]
                 elif kind == "named":
                     v.fields = [Field("i32", "a")]
-                if ch == "tos":
+                if ch == "tos" and n % 4 != 0:
                     v.metas = [tos("T%d" % n)]
+                elif ch == "tos" and n % 4 == 0:
+                    v.metas = [tos("T%d{{esc}}" % n)]          # escaped braces only: still a fixed name
                 elif ch == "both":
                     v.metas = [ser("s%d-long-serialize" % n), tos("T%d" % n), ser("z")]
                 elif ch != "none":
